@@ -1403,3 +1403,975 @@ class WireFlow:
             for pin, get, d in u:
                 self.judge(f, pin, get(0, "message"), d, "wire")
         return wires
+
+
+# ---------------------------------------------------------------------------
+# Fifth pass: what an object *is* after its constructor ran (ObjSim), and what a tuning class *evaluates to*
+# (ClassEval).  Both are small interpreters over concrete representatives: the questions they answer are of the
+# form "for every value of a small domain (message ID 0 / 1 / 0xFFFF, each message type, empty / non-empty
+# token), does the field end up holding the value that was passed" and "does this class compute the same number
+# as that class", so truthiness tests, `x or y`, `x if x is not None else y`, helper functions with early
+# returns (expanded by the engine), guard clauses, `is not None` and `!= b""` are all decided by evaluating them.
+
+
+class Unsupported(Exception):
+    pass
+
+
+def _c(v):
+    return ("c", v)
+
+
+CNONE = ("c", None)
+
+
+class ModuleScope:
+    """Meaning of a module-level name: class reference, enum member, constant, instance of a package class."""
+
+    def __init__(self, prog):
+        self.prog = prog
+        self._enum = {}
+
+    def enum_members(self, qn):
+        """{member name: (python value)} when class qn is an Enum of the package with constant members, else None;
+        second result: is it an int-valued enum whose members have the truthiness of their value"""
+        if qn in self._enum:
+            return self._enum[qn]
+        res = None
+        ci = self.prog.classes.get(qn)
+        if ci is not None:
+            bases = [b.split(".")[-1] for q in self.prog.mro(qn) if q in self.prog.classes for b in self.prog.classes[q].bases]
+            if any(b in ("Enum", "IntEnum", "IntFlag", "Flag", "StrEnum") for b in bases):
+                is_int = any(b in ("IntEnum", "IntFlag") for b in bases) or "int" in bases
+                members = {}
+                for name, v in ci.attrs.items():
+                    if name.startswith("_"):
+                        continue
+                    if isinstance(v, ast.Constant):
+                        members[name] = v.value
+                    elif isinstance(v, ast.UnaryOp) and isinstance(v.op, ast.USub) and isinstance(v.operand, ast.Constant):
+                        members[name] = -v.operand.value
+                if members:
+                    res = (members, is_int)
+        self._enum[qn] = res
+        return res
+
+    def member(self, qn, name):
+        em = self.enum_members(qn)
+        if em and name in em[0]:
+            return ("enum", qn, name, em[0][name], em[1])
+        return None
+
+    def module_value(self, mod, name, depth=0):
+        """the expression bound to a module-level name (also as element of `A, B = x, y`), or None"""
+        found = None
+        for st in mod.tree.body:
+            if isinstance(st, ast.Assign):
+                for t in st.targets:
+                    if isinstance(t, ast.Name) and t.id == name:
+                        found = st.value
+                    elif isinstance(t, (ast.Tuple, ast.List)) and isinstance(st.value, (ast.Tuple, ast.List)) and len(t.elts) == len(st.value.elts):
+                        for x, v in zip(t.elts, st.value.elts):
+                            if isinstance(x, ast.Name) and x.id == name:
+                                found = v
+            elif isinstance(st, ast.AnnAssign) and isinstance(st.target, ast.Name) and st.target.id == name and st.value is not None:
+                found = st.value
+        return found
+
+    def resolve(self, mod, dotted, depth=0):
+        """value of a dotted name used in module `mod`: ("cls", qn) / ("enum", ...) / ("c", v) / ("new", qn, ...) / None"""
+        if depth > 6:
+            return None
+        prog = self.prog
+        parts = dotted.split(".")
+        # longest prefix that is a class
+        for i in range(len(parts), 0, -1):
+            q = prog.resolve_in_module(mod, ".".join(parts[:i]))
+            if q in prog.classes:
+                rest = parts[i:]
+                if not rest:
+                    return ("cls", q)
+                if len(rest) == 1:
+                    return self.member(q, rest[0])
+                return None
+        head = parts[0]
+        # module-level binding here, or in the module the name is imported from
+        v = self.module_value(mod, head)
+        m2 = mod
+        if v is None and head in mod.imports:
+            tgt = prog.canonical(mod.imports[head])
+            mname, _, attr = tgt.rpartition(".")
+            if mname in prog.modules:
+                m2 = prog.modules[mname]
+                v = self.module_value(m2, attr)
+        if v is None:
+            return None
+        if len(parts) > 1:
+            return None
+        return self.value_of_expr(m2, v, depth + 1)
+
+    def value_of_expr(self, mod, e, depth=0):
+        if isinstance(e, ast.Constant):
+            return _c(e.value)
+        c = chain(e)
+        if c is not None:
+            return self.resolve(mod, c, depth + 1)
+        if isinstance(e, ast.Call) and not e.args and not e.keywords:
+            c = chain(e.func)
+            if c is not None:
+                r = self.resolve(mod, c, depth + 1)
+                if r is not None and r[0] == "cls":
+                    return ("new", r[1], id(e))
+        return None
+
+
+class _St:
+    def __init__(self, env, fields, clobbered=False):
+        self.env = env
+        self.fields = fields
+        self.clobbered = clobbered
+
+    def fork(self):
+        return _St(dict(self.env), dict(self.fields), self.clobbered)
+
+
+class ObjSim:
+    """Runs the __init__ of a package class on concrete / symbolic representatives.
+
+    values: ("c", python constant) | ("enum", class, member, value, int_valued) | ("cls", qn) | ("new", what, id) |
+            ("tuple", (values)) | ("dict", ((name, value), ...)) | ("marker", tag) | ("conv", class, value) |
+            ("self",) | ("unk", why)
+    run(kwargs) -> [(kind, fields, clobbered)] with kind in return / raise; a condition that cannot be evaluated
+    forks the run."""
+
+    MAX = 512
+
+    def __init__(self, prog, cls_qn):
+        self.prog = prog
+        self.scope = ModuleScope(prog)
+        self.cls_qn = cls_qn
+        self.init = prog.lookup_method(cls_qn, "__init__")
+        if self.init is None:
+            raise AnalysisError("class %s has no __init__ in the package" % cls_qn)
+        self.mod = self.init.module
+        self.n = 0
+
+    # -- values ------------------------------------------------------------
+    def truthy(self, v):
+        k = v[0]
+        if k == "c":
+            return bool(v[1])
+        if k == "enum":
+            return (v[3] != 0) if v[4] else True
+        if k in ("cls", "marker", "self"):
+            return True
+        if k == "conv":
+            return None
+        if k in ("tuple", "dict"):
+            return bool(v[1])
+        if k == "new":
+            q = v[1]
+            if q in self.prog.classes:
+                if self.prog.lookup_method(q, "__bool__") is None and self.prog.lookup_method(q, "__len__") is None and \
+                        all(b in self.prog.classes or b in ("object",) for c in self.prog.mro(q) if c in self.prog.classes for b in self.prog.classes[c].bases):
+                    return True
+                return None
+            if q in ("lambda", "function"):
+                return True
+            return None
+        return None
+
+    def is_none(self, v):
+        """True / False / None"""
+        if v[0] == "c":
+            return v[1] is None
+        if v[0] == "unk":
+            return None
+        return False
+
+    def num(self, v):
+        if v[0] == "c" and isinstance(v[1], (int, float)) and not isinstance(v[1], bool):
+            return v[1]
+        if v[0] == "enum" and v[4]:
+            return v[3]
+        return None
+
+    def eq(self, a, b):
+        if a[0] == "unk" or b[0] == "unk":
+            return None
+        if a[0] == "c" and b[0] == "c":
+            try:
+                return a[1] == b[1]
+            except Exception:
+                return None
+        if a[0] == "enum" and b[0] == "enum":
+            if a[1] == b[1]:
+                return a[2] == b[2]
+            if a[4] and b[4]:
+                return a[3] == b[3]
+            return False
+        na, nb = self.num(a), self.num(b)
+        if na is not None and nb is not None:
+            return na == nb
+        if a[0] == "marker" or b[0] == "marker":
+            return a == b
+        if a[0] == "conv" or b[0] == "conv":
+            return True if a == b else None
+        if a[0] == "new" and b[0] == "new":
+            return True if a == b else None
+        if a[0] == "new" or b[0] == "new":
+            return None
+        if a[0] == "tuple" and b[0] == "tuple":
+            if len(a[1]) != len(b[1]):
+                return False
+            rs = [self.eq(x, y) for x, y in zip(a[1], b[1])]
+            if any(r is False for r in rs):
+                return False
+            return True if all(r is True for r in rs) else None
+        if a[0] != b[0]:
+            return False
+        return a == b
+
+    def same(self, a, b):
+        """identity"""
+        if a[0] == "unk" or b[0] == "unk":
+            return None
+        na, nb = self.is_none(a), self.is_none(b)
+        if na or nb:
+            return bool(na and nb)
+        if a[0] == "c" and b[0] == "c":
+            if isinstance(a[1], bool) or isinstance(b[1], bool):
+                return a[1] is b[1]
+            return None if a[1] == b[1] else False
+        if a[0] == "enum" and b[0] == "enum":
+            return a[1] == b[1] and a[2] == b[2]
+        if a[0] != b[0]:
+            return False
+        return True if a == b else (None if a[0] == "conv" else False)
+
+    # -- expressions -------------------------------------------------------
+    def ev(self, e, st):
+        m = getattr(self, "ev_" + type(e).__name__, None)
+        if m is None:
+            return ("unk", type(e).__name__)
+        return m(e, st)
+
+    def ev_Constant(self, e, st):
+        return _c(e.value)
+
+    def ev_Name(self, e, st):
+        if e.id in st.env:
+            return st.env[e.id]
+        r = self.scope.resolve(self.mod, e.id)
+        if r is not None:
+            return r
+        return ("unk", "name %s" % e.id)
+
+    def ev_Attribute(self, e, st):
+        if isinstance(e.value, ast.Name) and st.env.get(e.value.id) == ("self",):
+            if e.attr in st.fields:
+                return st.fields[e.attr]
+            return ("unk", "field %s not set" % e.attr)
+        c = chain(e)
+        if c is not None and c.split(".")[0] not in st.env:
+            r = self.scope.resolve(self.mod, c)
+            if r is not None:
+                return r
+        base = self.ev(e.value, st)
+        if base[0] == "enum" and e.attr == "value":
+            return _c(base[3])
+        if base[0] == "enum" and e.attr == "name":
+            return _c(base[2])
+        if base[0] == "cls":
+            r = self.scope.member(base[1], e.attr)
+            if r is not None:
+                return r
+        return ("unk", "attribute %s" % e.attr)
+
+    def ev_Tuple(self, e, st):
+        if any(isinstance(x, ast.Starred) for x in e.elts):
+            return ("unk", "starred")
+        return ("tuple", tuple(self.ev(x, st) for x in e.elts))
+
+    ev_List = ev_Tuple
+
+    def ev_Dict(self, e, st):
+        if all(isinstance(k, ast.Constant) for k in e.keys):
+            return ("dict", tuple((k.value, self.ev(v, st)) for k, v in zip(e.keys, e.values)))
+        return ("unk", "dict")
+
+    def ev_Lambda(self, e, st):
+        return ("new", "lambda", id(e))
+
+    def ev_JoinedStr(self, e, st):
+        return ("unk", "f-string")
+
+    def ev_Await(self, e, st):
+        return self.ev(e.value, st)
+
+    def ev_NamedExpr(self, e, st):
+        v = self.ev(e.value, st)
+        st.env[e.target.id] = v
+        return v
+
+    def ev_BoolOp(self, e, st):
+        is_or = isinstance(e.op, ast.Or)
+        v = CNONE
+        for x in e.values:
+            v = self.ev(x, st)
+            t = self.truthy(v)
+            if t is None:
+                return ("unk", "truth of %s" % ast.unparse(x))
+            if t == is_or:
+                return v
+        return v
+
+    def ev_UnaryOp(self, e, st):
+        v = self.ev(e.operand, st)
+        if isinstance(e.op, ast.Not):
+            t = self.truthy(v)
+            return ("unk", "not") if t is None else _c(not t)
+        n = self.num(v)
+        if n is not None:
+            try:
+                return _c({ast.USub: lambda x: -x, ast.UAdd: lambda x: +x, ast.Invert: lambda x: ~x}[type(e.op)](n))
+            except Exception:
+                pass
+        return ("unk", "unary")
+
+    _BIN = {
+        ast.Add: lambda a, b: a + b, ast.Sub: lambda a, b: a - b, ast.Mult: lambda a, b: a * b, ast.Div: lambda a, b: a / b,
+        ast.FloorDiv: lambda a, b: a // b, ast.Mod: lambda a, b: a % b, ast.Pow: lambda a, b: a ** b if abs(b) < 64 else None,
+        ast.LShift: lambda a, b: a << b if 0 <= b < 64 else None, ast.RShift: lambda a, b: a >> b, ast.BitAnd: lambda a, b: a & b,
+        ast.BitOr: lambda a, b: a | b, ast.BitXor: lambda a, b: a ^ b,
+    }
+
+    def ev_BinOp(self, e, st):
+        a, b = self.ev(e.left, st), self.ev(e.right, st)
+        x = self.num(a) if self.num(a) is not None else (a[1] if a[0] == "c" and isinstance(a[1], (bytes, str)) else None)
+        y = self.num(b) if self.num(b) is not None else (b[1] if b[0] == "c" and isinstance(b[1], (bytes, str)) else None)
+        f = self._BIN.get(type(e.op))
+        if x is not None and y is not None and f is not None:
+            try:
+                r = f(x, y)
+                if r is not None:
+                    return _c(r)
+            except Exception:
+                pass
+        return ("unk", "arithmetic")
+
+    def ev_IfExp(self, e, st):
+        t = self.truth(e.test, st)
+        if t is None:
+            a, b = self.ev(e.body, st.fork()), self.ev(e.orelse, st.fork())
+            return a if a == b else ("unk", "condition %s" % ast.unparse(e.test))
+        return self.ev(e.body if t else e.orelse, st)
+
+    def ev_Subscript(self, e, st):
+        v = self.ev(e.value, st)
+        if isinstance(e.slice, ast.Slice):
+            return ("unk", "slice")
+        i = self.ev(e.slice, st)
+        try:
+            if v[0] == "c" and isinstance(v[1], (bytes, str)) and i[0] == "c":
+                return _c(v[1][i[1]])
+            if v[0] == "tuple" and i[0] == "c":
+                return v[1][i[1]]
+            if v[0] == "dict" and i[0] == "c":
+                return dict(v[1])[i[1]]
+        except Exception:
+            pass
+        return ("unk", "subscript")
+
+    def ev_Compare(self, e, st):
+        t = self.truth(e, st)
+        return ("unk", "comparison %s" % ast.unparse(e)) if t is None else _c(t)
+
+    def cmp(self, a, op, b):
+        if isinstance(op, ast.Is):
+            return self.same(a, b)
+        if isinstance(op, ast.IsNot):
+            r = self.same(a, b)
+            return None if r is None else not r
+        if isinstance(op, ast.Eq):
+            return self.eq(a, b)
+        if isinstance(op, ast.NotEq):
+            r = self.eq(a, b)
+            return None if r is None else not r
+        if isinstance(op, (ast.In, ast.NotIn)):
+            r = None
+            if b[0] == "tuple":
+                rs = [self.eq(a, x) for x in b[1]]
+                r = True if any(x is True for x in rs) else (False if all(x is False for x in rs) else None)
+            elif b[0] == "dict":
+                r = (a[1] in dict(b[1])) if a[0] == "c" else None
+            elif b[0] == "c" and a[0] == "c" and isinstance(b[1], (bytes, str)):
+                try:
+                    r = a[1] in b[1]
+                except Exception:
+                    r = None
+            if r is None:
+                return None
+            return r if isinstance(op, ast.In) else not r
+        x, y = self.num(a), self.num(b)
+        if x is not None and y is not None:
+            return {ast.Lt: x < y, ast.LtE: x <= y, ast.Gt: x > y, ast.GtE: x >= y}.get(type(op))
+        return None
+
+    def truth(self, e, st):
+        """True / False / None"""
+        if isinstance(e, ast.Compare):
+            left = self.ev(e.left, st)
+            res = True
+            for op, r in zip(e.ops, e.comparators):
+                right = self.ev(r, st)
+                t = self.cmp(left, op, right)
+                if t is None:
+                    return None
+                if not t:
+                    return False
+                left = right
+            return res
+        if isinstance(e, ast.UnaryOp) and isinstance(e.op, ast.Not):
+            t = self.truth(e.operand, st)
+            return None if t is None else not t
+        if isinstance(e, ast.BoolOp):
+            is_or = isinstance(e.op, ast.Or)
+            unknown = False
+            for x in e.values:
+                t = self.truth(x, st)
+                if t is None:
+                    unknown = True
+                elif t == is_or:
+                    # a decided operand decides the whole only if nothing undecided was evaluated before it
+                    return None if unknown else is_or
+            return None if unknown else (not is_or)
+        return self.truthy(self.ev(e, st))
+
+    # -- calls -------------------------------------------------------------
+    def _clobber(self, st):
+        st.clobbered = True
+        for k in list(st.fields):
+            st.fields[k] = ("unk", "changed by a method the interpreter does not enter")
+
+    def ev_Call(self, c, st):
+        fn = c.func
+        name = chain(fn) or ""
+        args = [self.ev(a, st) for a in c.args if not isinstance(a, ast.Starred)]
+        kw = {k.arg: self.ev(k.value, st) for k in c.keywords if k.arg is not None}
+        last = name.split(".")[-1]
+        if is_log_call(c) or last in ("warn", "warn_explicit"):
+            return CNONE
+        # method of a local value
+        if isinstance(fn, ast.Attribute):
+            recv = self.ev(fn.value, st)
+            if recv == ("self",):
+                self._clobber(st)
+                return ("unk", "result of self.%s()" % fn.attr)
+            if recv[0] == "dict":
+                d = dict(recv[1])
+                if fn.attr == "items" and not args:
+                    return ("tuple", tuple(("tuple", (_c(k), v)) for k, v in recv[1]))
+                if fn.attr in ("keys", "values") and not args:
+                    return ("tuple", tuple((_c(k) if fn.attr == "keys" else v) for k, v in recv[1]))
+                if fn.attr in ("get", "pop") and args and args[0][0] == "c":
+                    k = args[0][1]
+                    if fn.attr == "pop" and k in d and isinstance(fn.value, ast.Name):
+                        st.env[fn.value.id] = ("dict", tuple((a, b) for a, b in recv[1] if a != k))
+                    if k in d:
+                        return d[k]
+                    if len(args) > 1:
+                        return args[1]
+                    if fn.attr == "get":
+                        return CNONE
+                    raise _Raise("KeyError")
+                return ("unk", "dict method %s" % fn.attr)
+        target = None
+        if name and name.split(".")[0] not in st.env:
+            target = self.scope.resolve(self.mod, name)
+        elif name in st.env:
+            target = st.env[name]
+        if target is not None and target[0] == "cls":
+            q = target[1]
+            em = self.scope.enum_members(q)
+            if em is not None and len(args) == 1 and not kw:
+                a = args[0]
+                if a[0] == "enum" and a[1] == q:
+                    return a
+                n = self.num(a)
+                if n is not None or (a[0] == "c" and not em[1]):
+                    want = n if n is not None else a[1]
+                    for mname, mval in em[0].items():
+                        if mval == want:
+                            return ("enum", q, mname, mval, em[1])
+                    raise _Raise("ValueError")
+                if a[0] == "marker":
+                    return ("conv", q, a)
+                if self.is_none(a):
+                    raise _Raise("ValueError")
+                return ("unk", "%s(%s)" % (q.split(".")[-1], a[0]))
+            if any(x == ("self",) for x in args + list(kw.values())):
+                self._clobber(st)
+            return ("new", q, id(c))
+        if name in ("bool",) and len(args) == 1:
+            t = self.truthy(args[0])
+            return ("unk", "bool()") if t is None else _c(t)
+        if name == "int" and len(args) == 1 and self.num(args[0]) is not None:
+            return _c(int(self.num(args[0])))
+        if name == "bytes" and len(args) == 1 and args[0][0] == "c" and isinstance(args[0][1], bytes):
+            return args[0]
+        if name == "len" and len(args) == 1:
+            if args[0][0] == "c" and isinstance(args[0][1], (bytes, str)):
+                return _c(len(args[0][1]))
+            if args[0][0] in ("tuple", "dict"):
+                return _c(len(args[0][1]))
+        if name == "isinstance" and len(args) == 2:
+            return ("unk", "isinstance")
+        if name in ("setattr", "getattr", "hasattr", "delattr") and args and args[0] == ("self",):
+            if len(args) >= 2 and args[1][0] == "c" and isinstance(args[1][1], str):
+                f = args[1][1]
+                if name == "setattr" and len(args) == 3:
+                    st.fields[f] = args[2]
+                    return CNONE
+                if name == "getattr":
+                    if f in st.fields:
+                        return st.fields[f]
+                    return args[2] if len(args) == 3 else ("unk", "getattr")
+                if name == "hasattr":
+                    return _c(f in st.fields) if not st.clobbered else ("unk", "hasattr")
+            if name in ("setattr", "delattr"):
+                self._clobber(st)
+            return ("unk", name)
+        if any(x == ("self",) for x in args + list(kw.values())):
+            self._clobber(st)
+        return ("unk", "call %s" % (name or ast.unparse(fn)[:30]))
+
+    # -- statements --------------------------------------------------------
+    def assign(self, t, v, st):
+        if isinstance(t, ast.Name):
+            st.env[t.id] = v
+        elif isinstance(t, ast.Attribute):
+            if isinstance(t.value, ast.Name) and st.env.get(t.value.id) == ("self",):
+                st.fields[t.attr] = v
+            else:
+                self.ev(t.value, st)
+        elif isinstance(t, (ast.Tuple, ast.List)):
+            if v[0] == "tuple" and len(v[1]) == len(t.elts) and not any(isinstance(x, ast.Starred) for x in t.elts):
+                for x, y in zip(t.elts, v[1]):
+                    self.assign(x, y, st)
+            else:
+                for x in t.elts:
+                    self.assign(x.value if isinstance(x, ast.Starred) else x, ("unk", "unpacking"), st)
+        elif isinstance(t, ast.Subscript):
+            self.ev(t.value, st)
+
+    def block(self, stmts, st):
+        """-> [(status, state, info)] with status next / return / raise"""
+        states = [st]
+        out = []
+        for s in stmts:
+            nxt = []
+            for x in states:
+                for status, y, info in self.stmt(s, x):
+                    if status == "next":
+                        nxt.append(y)
+                    else:
+                        out.append((status, y, info))
+            states = nxt
+            self.n += len(states)
+            if self.n > self.MAX * 40 or len(states) > self.MAX:
+                raise Unsupported("too many paths")
+            if not states:
+                break
+        return out + [("next", x, None) for x in states]
+
+    def stmt(self, s, st):
+        try:
+            return self._stmt(s, st)
+        except _Raise as r:
+            return [("raise", st, r.exc)]
+
+    def _branch(self, test, st):
+        t = self.truth(test, st)
+        if t is None:
+            return [(True, st.fork()), (False, st.fork())]
+        return [(t, st)]
+
+    def _stmt(self, s, st):
+        if isinstance(s, ast.Assign):
+            v = self.ev(s.value, st)
+            for t in s.targets:
+                self.assign(t, v, st)
+            return [("next", st, None)]
+        if isinstance(s, ast.AnnAssign):
+            if s.value is not None:
+                self.assign(s.target, self.ev(s.value, st), st)
+            return [("next", st, None)]
+        if isinstance(s, ast.AugAssign):
+            load = copy.copy(s.target)
+            load.ctx = ast.Load()
+            v = self.ev_BinOp(ast.BinOp(left=load, op=s.op, right=s.value), st)
+            self.assign(s.target, v, st)
+            return [("next", st, None)]
+        if isinstance(s, ast.Expr):
+            self.ev(s.value, st)
+            return [("next", st, None)]
+        if isinstance(s, (ast.Pass, ast.Assert, ast.Import, ast.ImportFrom, ast.Global, ast.Nonlocal)):
+            return [("next", st, None)]
+        if isinstance(s, (ast.FunctionDef, ast.AsyncFunctionDef, ast.ClassDef)):
+            st.env[s.name] = ("new", "function", id(s))
+            return [("next", st, None)]
+        if isinstance(s, ast.Delete):
+            for t in s.targets:
+                if isinstance(t, ast.Name):
+                    st.env.pop(t.id, None)
+                elif isinstance(t, ast.Attribute) and isinstance(t.value, ast.Name) and st.env.get(t.value.id) == ("self",):
+                    st.fields[t.attr] = ("unk", "deleted")
+            return [("next", st, None)]
+        if isinstance(s, ast.Return):
+            return [("return", st, self.ev(s.value, st) if s.value is not None else CNONE)]
+        if isinstance(s, ast.Raise):
+            return [("raise", st, ast.unparse(s.exc)[:40] if s.exc is not None else "re-raise")]
+        if isinstance(s, ast.If):
+            out = []
+            for t, x in self._branch(s.test, st):
+                out.extend(self.block(s.body if t else s.orelse, x))
+            return out
+        if isinstance(s, (ast.With, ast.AsyncWith)):
+            for it in s.items:
+                v = self.ev(it.context_expr, st)
+                if it.optional_vars is not None:
+                    self.assign(it.optional_vars, ("unk", "context value") if v[0] != "new" else v, st)
+            return self.block(s.body, st)
+        if isinstance(s, (ast.For, ast.AsyncFor)):
+            it = self.ev(s.iter, st)
+            if it[0] in ("tuple",) and len(it[1]) <= 8:
+                states = [st]
+                out = []
+                for item in it[1]:
+                    nxt = []
+                    for x in states:
+                        self.assign(s.target, item, x)
+                        for status, y, info in self.block(s.body, x):
+                            if status == "next":
+                                nxt.append(y)
+                            else:
+                                out.append((status, y, info))
+                    states = nxt
+                for x in states:
+                    out.extend(self.block(s.orelse, x))
+                return out
+            # unknown iterable: not at all, or once with unknown items
+            a, b = st.fork(), st.fork()
+            self.assign(s.target, ("unk", "loop item"), b)
+            out = self.block(s.orelse, a)
+            if any(isinstance(n, (ast.Break, ast.Continue)) for n in walk_no_nested(s)):
+                raise Unsupported("loop with break/continue over an unknown iterable")
+            for status, y, info in self.block(s.body, b):
+                if status == "next":
+                    out.extend(self.block(s.orelse, y))
+                else:
+                    out.append((status, y, info))
+            return out
+        if isinstance(s, ast.Try):
+            out = []
+            for status, y, info in self.block(s.body, st):
+                if status == "raise" and s.handlers:
+                    for h in s.handlers:
+                        z = y.fork()
+                        if h.name:
+                            z.env[h.name] = ("new", "exception", id(h))
+                        out.extend(self.block(h.body, z))
+                elif status == "next":
+                    out.extend(self.block(s.orelse, y))
+                else:
+                    out.append((status, y, info))
+            if not s.finalbody:
+                return out
+            res = []
+            for status, y, info in out:
+                for st2, z, info2 in self.block(s.finalbody, y):
+                    res.append((status, z, info) if st2 == "next" else (st2, z, info2))
+            return res
+        raise Unsupported("statement %s" % type(s).__name__)
+
+    # -- entry -------------------------------------------------------------
+    def param_names(self):
+        a = self.init.node.args
+        return [x.arg for x in a.posonlyargs + a.args][1:] + [x.arg for x in a.kwonlyargs]
+
+    def run(self, kwargs):
+        """kwargs: {keyword: value}.  -> [(kind, fields, clobbered, info)]"""
+        a = self.init.node.args
+        pos = a.posonlyargs + a.args
+        env = {}
+        if not pos:
+            raise Unsupported("__init__ without self")
+        env[pos[0].arg] = ("self",)
+        defaults = {}
+        for p, d in zip(pos[len(pos) - len(a.defaults):], a.defaults):
+            defaults[p.arg] = d
+        for p, d in zip(a.kwonlyargs, a.kw_defaults):
+            if d is not None:
+                defaults[p.arg] = d
+        st = _St(env, {})
+        rest = dict(kwargs)
+        for p in pos[1:] + a.kwonlyargs:
+            if p.arg in rest:
+                env[p.arg] = rest.pop(p.arg)
+            elif p.arg in defaults:
+                env[p.arg] = self.ev(defaults[p.arg], _St({}, {}))
+            else:
+                env[p.arg] = ("unk", "required argument %s" % p.arg)
+        if a.kwarg is not None:
+            env[a.kwarg.arg] = ("dict", tuple(sorted(rest.items(), key=lambda kv: kv[0])))
+        elif rest:
+            return [("raise", {}, False, "TypeError: unexpected keyword %s" % sorted(rest))]
+        if a.vararg is not None:
+            env[a.vararg.arg] = ("tuple", ())
+        self.n = 0
+        res = []
+        for status, y, info in self.block(self.init.node.body, st):
+            res.append(("raise" if status == "raise" else "return", y.fields, y.clobbered, info))
+        return res
+
+
+class _Raise(Exception):
+    def __init__(self, exc):
+        Exception.__init__(self, exc)
+        self.exc = exc
+
+
+def constructions(prog, fi, cls_qn):
+    """[(call, {keyword: value expr}, has_unknown_kwargs)] of the constructions of class cls_qn in fi:
+    `C(...)`, `module.C(...)`, `cls(...)` inside a classmethod of C, `type(self)(...)` / `self.__class__(...)` in a method of C."""
+    res = []
+    in_cls = fi.cls is not None and fi.cls.qn == cls_qn
+    if not in_cls and fi.parent is not None:
+        top = fi
+        while top.parent is not None:
+            top = top.parent
+        in_cls = top.cls is not None and top.cls.qn == cls_qn
+    a = fi.node.args
+    first = (a.posonlyargs + a.args)[0].arg if (a.posonlyargs + a.args) else None
+    decos = {ast.unparse(d) for d in getattr(fi.node, "decorator_list", [])}
+    for c in walk_no_nested(fi.node):
+        if not isinstance(c, ast.Call):
+            continue
+        ok = False
+        name = chain(c.func)
+        if name is not None:
+            if in_cls and first is not None and name == first and "classmethod" in decos:
+                ok = True
+            elif in_cls and first is not None and name == first + ".__class__":
+                ok = True
+            elif name.split(".")[0] not in {x for x in _local_names(fi.node)}:
+                ok = prog.resolve_in_module(fi.module, name) == cls_qn
+        elif in_cls and isinstance(c.func, ast.Call) and chain(c.func.func) == "type" and len(c.func.args) == 1 and chain(c.func.args[0]) == first:
+            ok = True
+        if ok:
+            res.append((c, {k.arg: k.value for k in c.keywords if k.arg is not None}, any(k.arg is None for k in c.keywords) or bool(c.args)))
+    return res
+
+
+def _local_names(fnode):
+    out = set()
+    a = fnode.args
+    for x in a.posonlyargs + a.args + a.kwonlyargs + [y for y in (a.vararg, a.kwarg) if y]:
+        out.add(x.arg)
+    for n in walk_no_nested(fnode):
+        if isinstance(n, ast.Name) and isinstance(n.ctx, ast.Store):
+            out.add(n.id)
+    return out
+
+
+# ---------------------------------------------------------------------------
+# numbers a tuning class evaluates to
+
+
+class ClassEval:
+    """Value of `instance_of(cls).NAME` for class attributes and single-expression properties of package classes,
+    looked up along the MRO: exact rational arithmetic (float literals are taken at their binary value, so two
+    classes doing the same arithmetic give the same number).  `deps` collects every name that was read."""
+
+    _PROP = {"property", "functools.cached_property", "cached_property"}
+
+    def __init__(self, prog, cls_qn):
+        from fractions import Fraction
+
+        self.F = Fraction
+        self.prog = prog
+        self.cls_qn = cls_qn
+        self.deps = {}  # name -> class that defines it
+        self.scope = ModuleScope(prog)
+        self._busy = set()
+
+    def lookup(self, name):
+        for q in self.prog.mro(self.cls_qn):
+            ci = self.prog.classes.get(q)
+            if ci is None:
+                continue
+            cands = []
+            if name in ci.methods:
+                cands.append((ci.methods[name].node.lineno, "method", ci.methods[name]))
+            attrs = _class_attrs(ci)
+            if name in attrs:
+                if attrs[name] is None:
+                    raise Unsupported("%s.%s is bound conditionally or by a statement the evaluator does not read" % (q.split(".")[-1], name))
+                cands.append((getattr(attrs[name], "lineno", 0), "attr", attrs[name]))
+            if cands:
+                cands.sort(key=lambda x: x[0])
+                return ci, cands[-1][1], cands[-1][2]
+        return None, None, None
+
+    def get(self, name):
+        if name in self._busy:
+            raise Unsupported("%s is defined in terms of itself" % name)
+        ci, kind, what = self.lookup(name)
+        if ci is None:
+            raise Unsupported("%s is not defined by %s or its bases in the package" % (name, self.cls_qn.split(".")[-1]))
+        self.deps[name] = ci.qn
+        self._busy.add(name)
+        try:
+            if kind == "attr":
+                e = what
+                if isinstance(e, ast.Call) and chain(e.func) in self._PROP and len(e.args) == 1 and isinstance(e.args[0], ast.Lambda):
+                    lam = e.args[0]
+                    ps = [x.arg for x in lam.args.posonlyargs + lam.args.args]
+                    if len(ps) != 1:
+                        raise Unsupported("property lambda of %s" % name)
+                    return self.ev(lam.body, {}, ps[0], ci)
+                return self.ev(e, {}, None, ci)
+            fi = what
+            decos = {ast.unparse(d) for d in fi.node.decorator_list}
+            if not decos & self._PROP:
+                raise Unsupported("%s.%s is a method, not a property" % (ci.qn.split(".")[-1], name))
+            a = fi.node.args
+            ps = [x.arg for x in a.posonlyargs + a.args]
+            if len(ps) != 1:
+                raise Unsupported("signature of property %s" % name)
+            return self.body(fi.node.body, {}, ps[0], ci, name)
+        finally:
+            self._busy.discard(name)
+
+    def body(self, stmts, env, selfname, ci, name):
+        for s in stmts:
+            if isinstance(s, ast.Expr):
+                continue  # docstring, warnings.warn(...)
+            if isinstance(s, (ast.Pass, ast.Assert, ast.Import, ast.ImportFrom)):
+                continue
+            if isinstance(s, ast.Assign) and len(s.targets) == 1 and isinstance(s.targets[0], ast.Name):
+                env[s.targets[0].id] = self.ev(s.value, env, selfname, ci)
+                continue
+            if isinstance(s, ast.AnnAssign) and isinstance(s.target, ast.Name) and s.value is not None:
+                env[s.target.id] = self.ev(s.value, env, selfname, ci)
+                continue
+            if isinstance(s, ast.Return) and s.value is not None:
+                return self.ev(s.value, env, selfname, ci)
+            raise Unsupported("property %s: statement `%s`" % (name, stmt_text(s, 40)))
+        raise Unsupported("property %s returns nothing" % name)
+
+    def ev(self, e, env, selfname, ci):
+        F = self.F
+        if isinstance(e, ast.Constant):
+            if isinstance(e.value, bool) or not isinstance(e.value, (int, float)):
+                raise Unsupported("non-numeric constant %r" % (e.value,))
+            return F(e.value)
+        if isinstance(e, ast.Name):
+            if e.id in env:
+                return env[e.id]
+            if selfname is None and not isinstance(ci, _ModCi):
+                # class body: an earlier class attribute, else a module-level constant
+                c2, kind, what = self.lookup(e.id)
+                if c2 is not None and kind == "attr" and what is not e:
+                    return self.get(e.id)
+            v = self.scope.module_value(ci.module, e.id)
+            m2 = ci.module
+            if v is None and e.id in ci.module.imports:
+                tgt = self.prog.canonical(ci.module.imports[e.id])
+                mname, _, attr = tgt.rpartition(".")
+                if mname in self.prog.modules:
+                    m2 = self.prog.modules[mname]
+                    v = self.scope.module_value(m2, attr)
+            if v is None:
+                raise Unsupported("name %s" % e.id)
+            return self.ev(v, {}, None, _ModCi(m2))
+        if isinstance(e, ast.Attribute) and isinstance(e.value, ast.Name) and selfname is not None and e.value.id == selfname:
+            return self.get(e.attr)
+        if isinstance(e, ast.Attribute):
+            c = chain(e)
+            if c is not None:
+                parts = c.split(".")
+                r = self.scope.resolve(ci.module, ".".join(parts[:-1]))
+                if r is not None and r[0] == "cls":
+                    return ClassEval(self.prog, r[1]).get(parts[-1])
+            raise Unsupported("attribute %s" % ast.unparse(e))
+        if isinstance(e, ast.UnaryOp) and isinstance(e.op, (ast.USub, ast.UAdd)):
+            v = self.ev(e.operand, env, selfname, ci)
+            return -v if isinstance(e.op, ast.USub) else v
+        if isinstance(e, ast.BinOp):
+            a, b = self.ev(e.left, env, selfname, ci), self.ev(e.right, env, selfname, ci)
+            if isinstance(e.op, ast.Add):
+                return a + b
+            if isinstance(e.op, ast.Sub):
+                return a - b
+            if isinstance(e.op, ast.Mult):
+                return a * b
+            if isinstance(e.op, ast.Div):
+                if b == 0:
+                    raise Unsupported("division by zero")
+                return a / b
+            if isinstance(e.op, ast.Pow) and b.denominator == 1 and abs(b) <= 64:
+                if a == 0 and b < 0:
+                    raise Unsupported("division by zero")
+                return a ** int(b)
+            if isinstance(e.op, ast.LShift) and a.denominator == 1 and b.denominator == 1 and 0 <= b <= 64:
+                return F(int(a) << int(b))
+            raise Unsupported("operator %s" % type(e.op).__name__)
+        if isinstance(e, ast.Call) and chain(e.func) in ("float", "int") and len(e.args) == 1 and not e.keywords:
+            v = self.ev(e.args[0], env, selfname, ci)
+            return F(int(v)) if chain(e.func) == "int" else v
+        if isinstance(e, ast.Call) and chain(e.func) in ("max", "min") and len(e.args) >= 2 and not e.keywords:
+            vs = [self.ev(x, env, selfname, ci) for x in e.args]
+            return max(vs) if chain(e.func) == "max" else min(vs)
+        raise Unsupported("expression `%s`" % ast.unparse(e)[:50])
+
+
+def _class_attrs(ci):
+    """{name: value expr} of the class-level bindings read from the class body itself (the program index leaves
+    ClassInfo.attrs empty for classes defined inside functions); a name bound under a class-level if / try / with / for,
+    by `del`, or by unpacking a non-literal is mapped to None."""
+    out = {}
+
+    def bind(t, v):
+        if isinstance(t, ast.Name):
+            out[t.id] = v
+        elif isinstance(t, (ast.Tuple, ast.List)):
+            if v is not None and isinstance(v, (ast.Tuple, ast.List)) and len(v.elts) == len(t.elts) and not any(isinstance(x, ast.Starred) for x in list(v.elts) + list(t.elts)):
+                for x, y in zip(t.elts, v.elts):
+                    bind(x, y)
+            else:
+                for x in ast.walk(t):
+                    if isinstance(x, ast.Name):
+                        out[x.id] = None
+
+    for st in ci.node.body:
+        if isinstance(st, ast.Assign):
+            for t in st.targets:
+                bind(t, st.value)
+        elif isinstance(st, ast.AnnAssign):
+            if st.value is not None:
+                bind(st.target, st.value)
+        elif isinstance(st, (ast.FunctionDef, ast.AsyncFunctionDef, ast.ClassDef, ast.Expr, ast.Pass, ast.Import, ast.ImportFrom)):
+            continue
+        else:
+            for x in ast.walk(st):
+                if isinstance(x, ast.Name) and isinstance(x.ctx, (ast.Store, ast.Del)):
+                    out[x.id] = None
+    return out
+
+
+class _ModCi:
+    def __init__(self, module):
+        self.module = module
+        self.qn = module.name
